@@ -11,7 +11,8 @@ MUTANTS = [("MC_FairQueue_m1", "insert() does not wake the receiver", "NoLostWak
            ("MC_FairQueue_m6", "poll_next never gives control back while streams keep waking themselves (the code before fix 634cc7b)", "YieldBound"),
            ("MC_FairQueue_m7", "a polled stream is put back over a newer stream registered under its key meanwhile (the code before the supersede fix)", "NoStreamLost"),
            ("MC_FairQueue_m8", "re-insert of a registered key queues no ready event", "ReadyHasSignal"),
-           ("MC_FairQueue_m9", "the owner of the queue is not told that a stream ended (the code before the orderly-close fix)", "EndReported")]
+           ("MC_FairQueue_m9", "the owner of the queue is not told that a stream ended (the code before the orderly-close fix)", "EndReported"),
+           ("MC_FairQueue_z1", "a checked-out stream whose key was removed meanwhile is put back (the code before fix 41afc99)", "RemovedStaysOut")]
 REACH = ["MC_FairQueue_r1", "MC_FairQueue_r2", "MC_FairQueue_r3"]
 
 
@@ -24,6 +25,8 @@ def model_checks(chk, which=("safety", "mutants", "reach")):
         chk.model_must_hold(r, "FairQueue 2 peers x 2 items, remove, cancel (exhaustive)", disabled=("StaleFire", "Exhaust", "Reinsert"))
         r = vlib.tlc("FairQueue", "MC_FairQueue_qx.cfg", chk.wd, timeout=900, workers=12)
         chk.model_must_hold(r, "FairQueue 2 peers x 2 items, two superseding re-inserts of a registered key at any point incl. while its stream is checked out (exhaustive)", disabled=("StaleFire", "Exhaust", "Remove"))
+        r = vlib.tlc("FairQueue", "MC_FairQueue_qxr.cfg", chk.wd, timeout=900, workers=12)
+        chk.model_must_hold(r, "FairQueue 2 peers x 1 item, a superseding re-insert AND removal of a key at any point incl. while its stream is checked out: the stream of a removed key is never put back (exhaustive)", disabled=("StaleFire", "Exhaust"))
         if tier == "thorough":
             for cfg, what in (("MC_FairQueue_q2", "2 peers x 2 items, 2 stale wake-ups, exhaustion, remove"), ("MC_FairQueue_t", "3 peers x 2 items"),
                               ("MC_FairQueue_t2", "3 peers x 1 item, stale wake-up, exhaustion")):
